@@ -72,7 +72,7 @@ pub fn ep_extras_all() -> Vec<Option<families::Man>> {
 }
 
 pub fn make_ctx<'a>(run: &'a Run, mon: Mon, keymap: &'a KeyMap) -> Ctx<'a> {
-    Ctx { run, mon, keymap, see_values: crate::monitors::probe_see_values() }
+    Ctx { fen_crosscheck: std::sync::atomic::AtomicBool::new(false), run, mon, keymap, see_values: crate::monitors::probe_see_values() }
 }
 
 fn c01(run: &Run) -> i32 {
@@ -92,6 +92,7 @@ fn c01(run: &Run) -> i32 {
     };
     plan.castle_blockers = if run.quick() { vec![None] } else { vec![None, Some(Kind::N)] };
     plan.promo = true;
+    plan.heavy = Some((9, 10, 10));
     if !run.quick() {
         plan.mat2 = sweep::men2_all();
     }
@@ -117,6 +118,9 @@ fn generic_sweep(run: &Run, prop: &str) -> i32 {
         }
         "C18" => {
             plan.promo = true;
+            if !run.quick() {
+                plan.heavy = Some((9, 10, 10));
+            }
             plan.castle_enemy = vec![vec![Kind::Q], vec![Kind::R], vec![Kind::P]];
             // en passant with a slider of the capturing side behind the pawns: checks discovered by the removal
             plan.ep_extra = if run.quick() { vec![Some((Color::W, Kind::Q))] } else { vec![None, Some((Color::W, Kind::Q)), Some((Color::W, Kind::R)), Some((Color::W, Kind::B))] };
@@ -128,6 +132,7 @@ fn generic_sweep(run: &Run, prop: &str) -> i32 {
         }
         "C20" => {
             plan.see_family = Some(if run.quick() { 3 } else { 4 });
+            plan.heavy = Some((9, 10, 10));
             // positions with an en-passant target in which OTHER captures are judged (sliders crossing the passed square)
             plan.ep_extra = if run.quick() { vec![Some((Color::W, Kind::Q)), Some((Color::B, Kind::Q))] } else { vec![Some((Color::W, Kind::Q)), Some((Color::W, Kind::R)), Some((Color::W, Kind::B)), Some((Color::B, Kind::Q)), Some((Color::B, Kind::R)), Some((Color::B, Kind::B))] };
             plan.ep_restrict_king = true;
@@ -241,9 +246,7 @@ fn c02_c03_c15(run: &Run, prop: &str) -> i32 {
         plan.ep_extra = vec![None, Some((Color::B, Kind::B)), Some((Color::W, Kind::R)), Some((Color::B, Kind::N))];
         plan.castle_enemy = vec![vec![Kind::R], vec![Kind::B], vec![Kind::Q], vec![Kind::N]];
     }
-    if prop == "C15" {
-        plan.heavy = Some((9, 10, 10));
-    }
+    plan.heavy = Some((9, 10, 10));
     let (mut s, mut t) = sweep::run_plan(&ctx, &plan);
     // E2: nested make / null / take-back sequences
     let om = OpMon { rules: prop == "C02", key: prop == "C03", accum: prop == "C15", draws: false, nulls: true };
